@@ -524,6 +524,18 @@ func (db *Database) SearchWithFuzzy(query string, options SearchOptions) []Searc
 // fuzzyFindStable returns the fuzzy matches best first; equal scores keep the order of
 // the targets, so the ranking is a function of (pattern, targets) only.
 func fuzzyFindStable(pattern string, targets []string) fuzzy.Matches {
+	// The matcher uses rune 0 as its end-of-string marker: a NUL byte inside a target makes
+	// it run past the pattern (index out of range). Targets are matched with NUL as a space.
+	copied := false
+	for i, t := range targets {
+		if strings.IndexByte(t, 0) >= 0 {
+			if !copied {
+				targets = append([]string(nil), targets...)
+				copied = true
+			}
+			targets[i] = strings.ReplaceAll(t, "\x00", " ")
+		}
+	}
 	matches := fuzzy.FindNoSort(pattern, targets)
 	sort.SliceStable(matches, func(i, j int) bool { return matches[i].Score > matches[j].Score })
 	return matches
